@@ -223,7 +223,7 @@ fn build(case: &Case) -> Option<(Dec, Vec<u8>, bool)> {
                 let n = (*proof_len % 11) as usize;
                 b.extend_from_slice(&(n as u64).to_le_bytes());
                 for i in 0..n {
-                    b.extend_from_slice(&hash32(*hash_seed + i as u64));
+                    b.extend_from_slice(&hash32(hash_seed.wrapping_add(i as u64)));
                 }
             };
             match k {
